@@ -1,4 +1,4 @@
-import Pyrtma.Proofs.Manager
+import Pyrtma.Proofs.ManagerInv
 /-!
 # C01 — pub/sub routing is exact: right recipients, exactly once, unmodified
 
@@ -107,6 +107,29 @@ theorem exactly_once (cfg : Cfg) (fuel : Nat) (s : State) (f : Frame) (k : Nat)
   rw [hfe, ← List.count_eq_length_filter, List.Nodup.count hnd']
   simp [List.mem_filter]
 
+/-- an iteration order of a Python `set`: neither invents nor repeats elements -/
+def OrderOK (cfg : Cfg) : Prop := ∀ l : List Nat, l.Nodup → (cfg.order l).Nodup ∧ ∀ x, x ∈ cfg.order l → x ∈ l
+
+/-- **In every reachable state the subscriber snapshot of a real type lists nobody twice.**  `SubInv` (a module is listed
+under a type only if the type is in its own subscription set; no list has a repetition; subscribing to all types is
+exclusive) holds initially and is preserved by every round of `run()` — every accept, every frame of every kind,
+every failure and everything nested in its handling, every periodic message (`reachable_inv`) — and it implies that no
+module is both in the type's subscriber set and in the subscribe-to-all set. -/
+theorem snapshot_never_repeats (cfg : Cfg) (hord : OrderOK cfg) (rs : List Round) (t : Int) (ht : t ≠ cfg.allTypes) :
+    (recipients cfg (run cfg rs) t).Nodup :=
+  snapshot_nodup (reachable_inv cfg rs) t ht hord
+
+/-- **Exactly once, unconditionally**: in any state satisfying the invariant (every reachable state does, and so does
+every intermediate state inside a round, since each operation preserves it), forwarding a fresh data frame of a type other
+than the ALL sentinel with in-range destination gives every module exactly one copy if it is a subscriber (to the type
+or to all) that is eligible, and none otherwise. -/
+theorem exactly_once_inv (cfg : Cfg) (hord : OrderOK cfg) (fuel : Nat) (s : State) (hinv : SubInv cfg s) (f : Frame) (k : Nat)
+    (hb : f.body = .data k) (ht : f.mtype ≠ cfg.allTypes) (hc : s.crashed = none) (hr : outOfRange cfg f = false)
+    (hfresh : dataSends (isCopy k) s.out = []) (u : Nat) :
+    ((dataSends (isCopy k) (forward cfg (fuel + 1) s f).out).filter (·.1 == u)).length =
+      if u ∈ recipients cfg s f.mtype ∧ elig f s u = true then 1 else 0 :=
+  exactly_once cfg fuel s f k hb hc hr (snapshot_nodup hinv f.mtype ht hord) hfresh u
+
 /-! ### Non-vacuity: a concrete three-module state, one subscribe-all logger, one addressed message -/
 
 def exCfg : Cfg := {}
@@ -119,6 +142,7 @@ def exFrame : Frame := { mtype := 5000, src := 10, dest := 11, destHost := 0, nb
 
 /-- addressed to id 11: module 2 (addressed) and module 3 (logger, not even writable) get it, module 1 does not -/
 example : dataSends (isCopy 7) (forward exCfg 9 exState exFrame).out = [(2, exFrame), (3, exFrame)] := by decide
+example : OrderOK exCfg := fun l h => ⟨h, fun _ hx => hx⟩
 example : (recipients exCfg exState 5000).Nodup ∧ exState.crashed = none ∧ outOfRange exCfg exFrame = false := by decide
 
 end Pyrtma.C01
